@@ -222,7 +222,11 @@ func c38Play(s c38Schedule, spaced bool) (out c38Outcome) {
 	for i, op := range s.ops {
 		time.Sleep(op.gap)
 		if spaced {
-			// keep clear of the debounce window: at least 1.5 s after the last observed signal
+			// keep clear of the debounce window: at least 1.5 s after the previous operation (whose signal
+			// may still be on its way) and after the last observed signal
+			if i > 0 && op.gap < c38Window+c38Window/2 {
+				time.Sleep(c38Window + c38Window/2 - op.gap)
+			}
 			for {
 				mu.Lock()
 				ls := lastSignal
@@ -239,7 +243,13 @@ func c38Play(s c38Schedule, spaced bool) (out c38Outcome) {
 		present := statErr == nil
 		changed := true
 		mu.Lock()
-		switch op.kind {
+		kind := op.kind
+		if spaced && (kind == "rewrite" || kind == "create" || kind == "slowwrite") {
+			// a write that is seen as two events (truncate/create, then write) can be read half-done and its
+			// second event falls into the window: same known finding. Only atomic replacements here.
+			kind = "rename"
+		}
+		switch kind {
 		case "rewrite":
 			note("op %d: rewrite in place with %q", i+1, c)
 			mu.Unlock()
@@ -381,7 +391,7 @@ func TestVerifC38FinalContent(t *testing.T) {
 	maxOps := kit.EnvInt("C38_MAXOPS", 6)
 	spaced := kit.Known(c38KnownKey)
 	if spaced {
-		rec.Note("known finding " + c38KnownKey + ": operations are kept 1.5 s clear of the last signal, two-syscall writes are not generated")
+		rec.Note("known finding " + c38KnownKey + ": operations are kept 1.5 s clear of the previous operation and of the last signal; every write is an atomic temp+rename")
 	}
 
 	// Once a confirmed violation exists, rapid shrinks it; infrastructure hiccups and unconfirmed misses
